@@ -1,0 +1,24 @@
+//go:build verif
+
+package corazawaf
+
+// Verification hook for property C10 (add-only, build tag verif): exposes the unexported state
+// of the body buffers so that the correspondence harness can compare it with the model.
+
+// VerifC10BodyBufferState returns (length, memory-buffer length, spill file in use) of the
+// request (response = false) or response (response = true) body buffer.
+func (tx *Transaction) VerifC10BodyBufferState(response bool) (length int64, memLen int, spilled bool) {
+	b := tx.requestBodyBuffer
+	if response {
+		b = tx.responseBodyBuffer
+	}
+	if b == nil {
+		return 0, 0, false
+	}
+	return b.length, b.buffer.Len(), b.writer != nil
+}
+
+// VerifC10State is the same for a bare BodyBuffer.
+func (br *BodyBuffer) VerifC10State() (length int64, memLen int, spilled bool) {
+	return br.length, br.buffer.Len(), br.writer != nil
+}
